@@ -4,7 +4,7 @@ import json, subprocess
 ALL = ["C%02d" % i for i in range(1, 18)]
 CHECKS = {
  "C01": dict(
-   text="Bounded-exhaustive differential model checking on the real code: every rule of the bounded universe x 16 switch sets x every iteration order of every hooked optimiser-local map (stateless DFS over cfg-guarded choice points) x the full product of per-field document alphabets; the optimised verdict must equal the unoptimised one and optimise/matches must not panic. Violations are localised to pass@site:kind signatures so that the recorded defects do not mask new ones. Additionally the four passes are applied by hand through core::optimiser in every order of every subset with coalesce first or absent (order-specific verdict changes only), and core::solve / core::solve_expression / solve must agree with Rule::matches.",
+   text="Bounded-exhaustive differential model checking on the real code: every rule of the bounded universe x 16 switch sets x every iteration order of every hooked optimiser-local map (stateless DFS over cfg-guarded choice points) x the full product of per-field document alphabets; the optimised verdict must equal the unoptimised one and optimise/matches must not panic. Violations are localised to pass@site:kind signatures so that the recorded defects do not mask new ones. Additionally the four passes are applied by hand through core::optimiser in every order of every subset with coalesce first or absent (order-specific verdict changes only), and core::solve / core::solve_expression / solve must agree with Rule::matches. A wide-matrix family (or-groups of 64..300, 2048 and 55296 distinct fields in three row shapes, boundary columns around 128 / 2048 / 0xD800 where the one-char column key changes its UTF-8 length or stops existing) is evaluated as loaded and under every switch set with the matrix pass against the verdict known by construction.",
    note="Bounds: universe sizes in the evidence; trusted: regex, aho-corasick, serde_yaml; PermMap over-approximates std HashMap orders; the pass-by-pass replica of Rule::optimise is conformance-checked against Rule::optimise on every rule x switch set.",
    technique="stateless explicit-state exploration of hash-order choice points + exhaustive input enumeration, differential oracle",
    ref="5/C01"),
@@ -19,7 +19,7 @@ CHECKS = {
    technique="deviation-bounded stateless exploration of environment (Document) answers + exhaustive enumeration of condition token strings",
    ref="5/C03"),
  "C04": dict(
-   text="Every string up to a length bound over adversarial alphabets through each textual layer on its own (pattern parser, tokeniser, mapping-key parser) and through the loader; every node position of a skeleton rule x a 42-shape YAML alphabet (pairs of positions in thorough); depth-64 cases in child processes; oracle: returns Ok or Err, no panic/abort, returns within 10 s (watchdog).",
+   text="Every string up to a length bound over adversarial alphabets through each textual layer on its own (pattern parser, tokeniser, mapping-key parser) and through the loader; every node position of a skeleton rule x a 42-shape YAML alphabet (pairs of positions in thorough); every node position x seven shapes carrying a long multi-byte payload (2-, 3-, 4-byte characters behind 0-3 ASCII characters, lengths on both sides of 256 / 1024 / 4096 bytes); depth-64 cases in child processes; oracle: returns Ok or Err, no panic/abort, returns within 10 s (watchdog).",
    note="serde_yaml itself trusted; nesting beyond 64 out of scope; longer strings outside the bound not covered.",
    technique="bounded-exhaustive input enumeration on the real code with panic/abort/hang oracle",
    ref="5/C04"),
@@ -49,22 +49,22 @@ CHECKS = {
    technique="complete enumeration of a finite boundary product against an exact-arithmetic reference",
    ref="5/C09"),
  "C10": dict(
-   text="All paths up to depth N x all small document trees with unique leaves x 5 representations against a reference resolver (identity of the addressed value); the same through Rule::matches; nested-mapping form vs dotted form; totality of find() on all key strings up to a length bound.",
+   text="All paths up to depth N x all small document trees with unique leaves x 5 representations against a reference resolver (identity of the addressed value); the same through Rule::matches; nested-mapping form vs dotted form; totality of find() on all key strings up to a length bound. The whole exploration runs a second time in a harness built against tau-engine/sync (that feature carries its own copy of Object::find and of the adapter impls), and the wide-matrix family checks that cells beyond column 127 / 2047 are answered from their own field.",
    note="Malformed index syntax has only a totality oracle.",
    technique="bounded-exhaustive enumeration of (path, document) against a reference resolver",
    ref="5/C10"),
  "C11": dict(
-   text="Every model document (shared alphabets + 64-bit/double extremes) is rendered into each supported representation and every rule of the numeric family and the shared universe must give the same verdict on all of them; every std adapter is checked to yield the value kind with the same numeric value and signedness.",
+   text="Every model document (shared alphabets + 64-bit/double extremes) is rendered into each supported representation and every rule of the numeric family and the shared universe must give the same verdict on all of them; every std adapter is checked to yield the value kind with the same numeric value and signedness. Repeated in a harness built against tau-engine/sync (own copies of the traits and of the HashMap adapter).",
    note="NaN/inf documents are skipped for JSON; f32 compared after exact widening.",
    technique="bounded-exhaustive differential enumeration across representations",
    ref="5/C11"),
  "C12": dict(
-   text="Four exhaustive dimensions: (1) all iteration orders of every hooked optimiser map per rule x switch set - printed tree must be unique; (2) explicit-state search over all document sequences of length 4 on one shared rule - one reachable observable state, verdicts equal a fresh rule's; (3) shuttle DFS over ALL interleavings of matches() from 2-3 threads sharing Arc<Rule> at Document::find granularity, deviation-bounded DFS for 4-16 threads; (4) per-rule digests across child processes that handle the rules in different orders and environments, and every ordered pair of a state-sensitive rule slice in its own fresh process. Later additions, all exhaustive within their bounds: every iteration order of the rule's own identifiers map (2-4 identifiers, all n! orders drawn until realised) x 6 switch sets; every sequence up to depth 3/4 over nine pure API operations on one rule value against a fresh rule on a fresh thread; every ordered pair (thorough: triple) of optimise() calls with different switch sets on one thread; a confusable-rule family inside the ordered-pair slice; loading/optimising/matching with and without an all-levels tracing subscriber.",
+   text="Four exhaustive dimensions: (1) all iteration orders of every hooked optimiser map per rule x switch set - printed tree must be unique; (2) explicit-state search over all document sequences of length 4 on one shared rule - one reachable observable state, verdicts equal a fresh rule's; (3) shuttle DFS over ALL interleavings of matches() from 2-3 threads sharing Arc<Rule> at Document::find granularity, deviation-bounded DFS for 4-16 threads; (4) per-rule digests across child processes that handle the rules in different orders and environments, and every ordered pair of a state-sensitive rule slice in its own fresh process. Later additions, all exhaustive within their bounds: every iteration order of the rule's own identifiers map (2-4 identifiers, all n! orders drawn until realised) x 6 switch sets; every sequence up to depth 3/4 over nine pure API operations on one rule value against a fresh rule on a fresh thread; every ordered pair (thorough: triple) of optimise() calls with different switch sets on one thread; a confusable-rule family inside the ordered-pair slice; loading/optimising/matching with and without an all-levels tracing subscriber; every sequence up to depth 3/4 of loads over 13 accepted and rejected texts (accepted ones at the documented nesting bound) on one fresh thread - each load must produce what it produces first thing on a fresh thread.",
    note="Callback granularity is justified by a source scan re-run on every check (no shared mutable state in the engine); free-running 16-thread run and process comparison are samples, labelled so.",
    technique="explicit-state search over histories + exhaustive controlled-scheduler (shuttle DFS) exploration of interleavings + hash-order choice exploration",
    ref="5/C12"),
  "C13": dict(
-   text="Rules x switch sets x all pairs of example lists (length 0-2) over matching / non-matching / empty / malformed entries; validate() must be Ok(true) iff matches() accepts every positive and rejects every negative, else a Validation error naming exactly the failing examples; never a panic. Plus explicit search over operation sequences on ONE rule value (validate, assign one of five example-list pairs, optimise, clone, replace the detection) up to depth 3/4: validate() must answer as a freshly loaded rule with the same public fields.",
+   text="Rules x switch sets x all pairs of example lists (length 0-2) over matching / non-matching / empty / malformed entries; validate() must be Ok(true) iff matches() accepts every positive and rejects every negative, else a Validation error naming exactly the failing examples; never a panic. Plus explicit search over operation sequences on ONE rule value (validate, assign one of five example-list pairs, optimise, clone, replace the detection) up to depth 3/4: validate() must answer as a freshly loaded rule with the same public fields. Plus example lists of 3..100 (thorough 257) entries around every power of two x five positive/negative splits x the failing entry nowhere / first / middle / last, on rules whose optimised form is known to decide some documents differently.",
    note="Examples are identified in the error text by unique marker values, the message format is not pinned.",
    technique="bounded-exhaustive enumeration of example lists with matches() as oracle",
    ref="5/C13"),
@@ -79,7 +79,7 @@ CHECKS = {
    technique="bounded-exhaustive differential enumeration across two builds (configurations)",
    ref="5/C15"),
  "C16": dict(
-   text="Every rule x switch set (all distinct optimised trees) x documents on a recording document that logs every get() on the document and on nested objects: keys asked must be written in the rule, synthetic keys are never asked, and adding unaddressed fields (including the synthetic names) never changes the verdict. A second recorder at Document level checks that every key string presented to Document::find is, verbatim, a key written at the top level of an identifier or a field of the condition.",
+   text="Every rule x switch set (all distinct optimised trees) x documents on a recording document that logs every get() on the document and on nested objects: keys asked must be written in the rule, synthetic keys are never asked, and adding unaddressed fields (including the synthetic names) never changes the verdict. A second recorder at Document level checks that every key string presented to Document::find is, verbatim, a key written at the top level of an identifier or a field of the condition. Repeated in a harness built against tau-engine/sync.",
    note="Key attribution is by segment name, not exact nesting path.",
    technique="bounded-exhaustive exploration with an execution invariant on the recorded environment interaction",
    ref="5/C16"),
